@@ -267,7 +267,6 @@ def processAttestationPhase0 (cfg : Config) (ctx : Ctx) (s : State) (att : Attes
   -- Check signature and bitfields
   let committee ← ofOpt (ctx.committee data.slot data.index)
   let indices ← convertToIndexed cfg att committee
-  if att.oracle_indices ≠ some indices then .outOfFuel else  -- oracle audit (never on generated lines)
   validateIndexedAttestation cfg s indices att.sig_ok
   let proposerIndex ← ofOpt ctx.proposer
   let pending : PendingAttestation :=
@@ -331,7 +330,6 @@ def processAttestationAltair (cfg : Config) (ctx : Ctx) (s : State) (att : Attes
   let applyFlags ← applicableFlags cfg s data (s.slot - data.slot)
   let committee ← ofOpt (ctx.committee data.slot data.index)
   let indices ← convertToIndexed cfg att committee
-  if att.oracle_indices ≠ some indices then .outOfFuel else
   validateIndexedAttestation cfg s indices att.sig_ok
   let current := decide (data.target.epoch = currentEpoch)
   let part := if current then s.current_epoch_participation else s.previous_epoch_participation
